@@ -30,7 +30,7 @@ type c15conn struct {
 	dialPort int // the target port this connection's own dial goes to (0: none expected)
 }
 
-var c15causes = []string{"ok", "ok", "cipher", "replay-client", "replay-server", "bad-address", "private-address", "connect-fail", "relay-client", "relay-target", "client-abort"}
+var c15causes = []string{"ok", "ok", "cipher", "cipher-idle", "replay-client", "replay-server", "bad-address", "private-address", "connect-fail", "relay-client", "relay-target", "client-abort"}
 
 func runC15(rc *RunCtx) {
 	G := rc.G
@@ -130,6 +130,14 @@ func runC15(rc *RunCtx) {
 					c.c = dial()
 					writeSegmented(G, c.c, payload(G, G.Draw(300)), 3)
 					c.c.CloseWrite()
+					readAll(c.c)
+					c.c.Close()
+				case "cipher-idle":
+					// a probe that stays silent: the server drains until the handshake
+					// timeout and closes first
+					c.want, c.probe, c.complete = "ERR_CIPHER", true, true
+					c.c = dial()
+					writeSegmented(G, c.c, payload(G, G.Draw(300)), 3)
 					readAll(c.c)
 					c.c.Close()
 				case "replay-client":
